@@ -12,6 +12,8 @@ def run(m, tier):
     from rules import two_roundtrip
     results.append(two_roundtrip.layout_rule(m, "C04.R10", floor=1000))
     results.append(two_roundtrip.optional_blank_rule(m, "C04.R11"))
+    from rules import reader_interp
+    results.append(reader_interp.free_rule(m, "C04.R12", tier))
     expl = ("Decides structural necessary conditions of layout independence: the quote state returned by handle_inline_comment is "
             "threaded through every continuation loop and a comment ends character context (path-sensitive over the function); ';' is "
             "split on the tokenised line only, each part has the replace map undone and label then construct name re-extracted; "
